@@ -582,12 +582,20 @@ pub fn payable_function(f: &File) -> Vec<Site> {
     let mut out = Vec::new();
     for c in contracts(f.su) {
         for fd in functions(c) {
-            let (pe, _, payable) = fn_vis(fd);
+            let (pe, pi, payable) = fn_vis(fd);
             if fd.body.is_some() && pe && !payable {
                 // a `fallback` is a public/external function with a body like any other; constructors,
                 // `receive` (always payable) and modifiers stay undecided
-                let canonical = (fd.ty == pt::FunctionTy::Function && fd.name.is_some()) || fd.ty == pt::FunctionTy::Fallback;
+                let canonical = ((fd.ty == pt::FunctionTy::Function && fd.name.is_some()) || fd.ty == pt::FunctionTy::Fallback) && !pi;
                 out.push(site(fd.loc.start(), canonical, if canonical { "public-nonpayable-function" } else { "public-nonpayable-special" }, "Contract.part"));
+            }
+        }
+    }
+    for p in &f.su.0 {
+        if let pt::SourceUnitPart::FunctionDefinition(fd) = p {
+            let (pe, _, payable) = fn_vis(fd);
+            if fd.body.is_some() && pe && !payable {
+                out.push(site(fd.loc.start(), false, "free-function-with-visibility", "SourceUnit.part"));
             }
         }
     }
@@ -607,8 +615,16 @@ pub fn private_constant(f: &File) -> Vec<Site> {
         }
         match ty_class(&sv.def.ty) {
             TyClass::Value | TyClass::ElementaryRef => out.push(site(sv.def.loc.start(), !immutable, "non-private-constant", "Contract.part")),
-            TyClass::OtherType => out.push(site(sv.def.loc.start(), false, "non-private-constant-other-type", "Contract.part")),
-            TyClass::Mapping | TyClass::NotAType => {}
+            TyClass::OtherType | TyClass::Mapping | TyClass::NotAType => out.push(site(sv.def.loc.start(), false, "non-private-constant-other-type", "Contract.part")),
+        }
+    }
+    // file-level constants: undecided
+    for p in &f.su.0 {
+        if let pt::SourceUnitPart::VariableDefinition(d) = p {
+            let (constant, _, vis) = var_attrs(d);
+            if constant && !vis.iter().any(|v| matches!(v, pt::Visibility::Private(_))) {
+                out.push(site(d.loc.start(), false, "file-level-constant", "SourceUnit.part"));
+            }
         }
     }
     out
@@ -618,9 +634,6 @@ pub fn private_vars_leading_underscore(f: &File) -> Vec<Site> {
     let mut out = Vec::new();
     for sv in state_vars(f.su) {
         let (constant, _imm, vis) = var_attrs(sv.def);
-        if constant {
-            continue;
-        }
         let name = &sv.def.name.name;
         let mut bad = false;
         let mut undecided = false;
@@ -643,6 +656,13 @@ pub fn private_vars_leading_underscore(f: &File) -> Vec<Site> {
                 }
             }
         }
+        if constant {
+            // constants: undecided (table 8.2)
+            if bad || undecided {
+                out.push(site(sv.def.loc.start(), false, "constant-with-contradicting-underscore", "Contract.part"));
+            }
+            continue;
+        }
         match ty_class(&sv.def.ty) {
             TyClass::Value | TyClass::ElementaryRef => {
                 if bad {
@@ -651,12 +671,11 @@ pub fn private_vars_leading_underscore(f: &File) -> Vec<Site> {
                     out.push(site(sv.def.loc.start(), false, "external-variable", "Contract.part"));
                 }
             }
-            TyClass::OtherType => {
+            TyClass::OtherType | TyClass::Mapping | TyClass::NotAType => {
                 if bad || undecided {
                     out.push(site(sv.def.loc.start(), false, "other-type", "Contract.part"));
                 }
             }
-            _ => {}
         }
     }
     out
@@ -679,6 +698,17 @@ pub fn private_func_leading_underscore(f: &File) -> Vec<Site> {
             if bad {
                 // one explicit visibility: decided; contradictory double visibility: undecided
                 out.push(Site { anchors: vec![name.loc.start(), fd.loc.start()], canonical: !(pe && pi), form: "underscore-contradicts-visibility", class: "Contract.part" });
+            }
+        }
+    }
+    for p in &f.su.0 {
+        if let pt::SourceUnitPart::FunctionDefinition(fd) = p {
+            if let (pt::FunctionTy::Function, Some(name)) = (fd.ty, &fd.name) {
+                let (pe, pi, _) = fn_vis(fd);
+                let us = name.name.starts_with('_');
+                if (pe && us) || (pi && !us) {
+                    out.push(Site { anchors: vec![name.loc.start(), fd.loc.start()], canonical: false, form: "free-function-with-visibility", class: "SourceUnit.part" });
+                }
             }
         }
     }
@@ -786,6 +816,10 @@ pub fn floating_pragma(f: &File) -> Vec<Site> {
                 parts.len() == 3 && parts.iter().all(|p| !p.is_empty() && p.chars().all(|c| c.is_ascii_digit()))
             };
             if id.name == "solidity" {
+                if v.contains("/*") || v.contains("//") {
+                    out.push(site(loc.start(), false, "commented-pragma-value", "SourceUnit.part"));
+                    continue;
+                }
                 if let Some(rest) = v.strip_prefix('^') {
                     if is_ver(rest.trim()) {
                         out.push(site(loc.start(), true, "^X.Y.Z", "SourceUnit.part"));
@@ -796,7 +830,9 @@ pub fn floating_pragma(f: &File) -> Vec<Site> {
                 let bytes = v.as_bytes();
                 let caret_range = (0..bytes.len()).any(|i| bytes[i] == b'^' && v[i + 1..].trim_start().chars().next().map(|c| c.is_ascii_digit()).unwrap_or(false));
                 if caret_range {
-                    out.push(site(loc.start(), true, "caret-range-in-compound-pragma", "SourceUnit.part"));
+                    // a comment inside the value is part of the value for this lexer: a caret there decides nothing
+                    let commented = v.contains("/*") || v.contains("//");
+                    out.push(site(loc.start(), !commented, if commented { "caret-in-commented-pragma-value" } else { "caret-range-in-compound-pragma" }, "SourceUnit.part"));
                     continue;
                 }
                 if is_ver(v) || v.strip_prefix('=').map(|r| is_ver(r.trim())).unwrap_or(false) {
@@ -836,6 +872,18 @@ fn sender_uses_expr(e: &E, in_sd: bool, acc: &mut SenderUse) {
                         // benign (a): the payout address itself
                     } else {
                         sender_uses_expr(a, true, acc);
+                    }
+                }
+                return;
+            }
+            if matches!(callee.as_ref(), E::Type(..)) && !is_elementary_type_expr(callee) {
+                // a "conversion" to a non-elementary type keyword (`mapping(..)(msg.sender)`): neither a check
+                // passed to a call nor one of the conversions the statement names — undecided
+                for a in args {
+                    if is_msg_sender(a) || matches!(a, E::Equal(_, l, _) | E::NotEqual(_, l, _) if is_msg_sender(l)) {
+                        acc.other = true;
+                    } else {
+                        sender_uses_expr(a, in_sd, acc);
                     }
                 }
                 return;
@@ -886,8 +934,11 @@ fn sender_uses_expr(e: &E, in_sd: bool, acc: &mut SenderUse) {
         }
         _ => {
             if is_msg_sender(e) {
-                // any other mention
-                acc.other = true;
+                // inside the selfdestruct call's own arguments any mention is the payout address (benign);
+                // anywhere else another kind of mention leaves the verdict undecided
+                if !in_sd {
+                    acc.other = true;
+                }
                 return;
             }
             // generic descent through the reference walker's direct children
@@ -942,10 +993,12 @@ pub fn unprotected_selfdestruct(f: &File) -> Vec<Site> {
             if fd.ty == pt::FunctionTy::Constructor {
                 continue;
             }
-            let (pe, _, _) = fn_vis(fd);
+            let (pe, pi, _) = fn_vis(fd);
             if !pe {
                 continue;
             }
+            // a `modifier` is not a function; two contradictory visibilities decide nothing
+            let odd_head = fd.ty == pt::FunctionTy::Modifier || pi;
             let only = fd.attributes.iter().any(|a| matches!(a, pt::FunctionAttribute::BaseOrModifier(_, b) if b.name.identifiers.iter().any(|i| i.name.contains("only"))));
             if only {
                 continue;
@@ -958,7 +1011,8 @@ pub fn unprotected_selfdestruct(f: &File) -> Vec<Site> {
             for it in walk::walk_from(NodeRef::Stmt(body)) {
                 if let NodeRef::Expr(E::FunctionCall(loc, callee, _)) = it.node {
                     if is_selfdestruct_callee(callee) {
-                        out.push(site(loc.start(), !acc.other, if acc.other { "other-mention-of-msg.sender" } else { "unprotected" }, it.class));
+                        let canonical = !acc.other && !odd_head;
+                        out.push(site(loc.start(), canonical, if canonical { "unprotected" } else { "other-mention-of-msg.sender-or-odd-head" }, it.class));
                     }
                 }
             }
@@ -979,6 +1033,8 @@ pub struct Writes {
     pub broad: BTreeSet<String>,
     /// bare name or name[index] target of a plain `=`
     pub plain_or_indexed: BTreeSet<String>,
+    /// bare names that are a component of a tuple / parenthesised target of a plain `=`
+    pub via_tuple: BTreeSet<String>,
 }
 
 fn lvalue_roots(e: &E, out: &mut BTreeSet<String>) {
@@ -1016,17 +1072,48 @@ pub fn writes_in<'a>(items: impl Iterator<Item = &'a Item<'a>>) -> Writes {
             _ => continue,
         };
         lvalue_roots(lhs, &mut w.broad);
-        if let Some(n) = var_name(lhs) {
-            w.direct.insert(n.to_string());
-            if plain {
-                w.plain.insert(n.to_string());
-                w.plain_or_indexed.insert(n.to_string());
+        // the bare identifier, also as a component of a tuple `(a, b) = ..` or in parentheses `(a) = ..`
+        let mut targets: Vec<&E> = Vec::new();
+        fn leaf_targets<'x>(e: &'x E, out: &mut Vec<&'x E>) {
+            match e {
+                E::Parenthesis(_, inner) => leaf_targets(inner, out),
+                E::List(_, pl) => {
+                    for (_, p) in pl {
+                        if let Some(p) = p {
+                            // a component with a name is a declaration `(uint a, uint b) = ..`, not a write
+                            if p.name.is_none() {
+                                leaf_targets(&p.ty, out);
+                            }
+                        }
+                    }
+                }
+                other => out.push(other),
             }
         }
         if plain {
-            if let E::ArraySubscript(_, b, _) = lhs {
-                if let Some(n) = var_name(b) {
+            leaf_targets(lhs, &mut targets);
+        } else {
+            // compound assignment and ++/--: only the bare operand (a tuple is not a valid operand)
+            targets.push(lhs);
+        }
+        let flattened = plain && matches!(lhs, E::List(..) | E::Parenthesis(..));
+        for leaf in targets {
+            if let E::Variable(id) = leaf {
+                let n = id.name.as_str();
+                if flattened {
+                    w.via_tuple.insert(n.to_string());
+                }
+                w.direct.insert(n.to_string());
+                if plain {
+                    w.plain.insert(n.to_string());
                     w.plain_or_indexed.insert(n.to_string());
+                }
+            }
+            if plain {
+                if let E::ArraySubscript(_, b, _) = leaf {
+                    if let E::Variable(id) = b.as_ref() {
+                        w.plain_or_indexed.insert(id.name.clone());
+                    }
                 }
             }
         }
@@ -1051,10 +1138,6 @@ pub fn constant_variables(f: &File) -> Vec<Site> {
             continue; // must never be suggested
         }
         let decided_type = matches!(ty_class(&sv.def.ty), TyClass::Value | TyClass::ElementaryRef);
-        match ty_class(&sv.def.ty) {
-            TyClass::Mapping | TyClass::NotAType => continue,
-            _ => {}
-        }
         let canonical = decided_type && !w.broad.contains(name) && !assembly_mentions(f, name);
         out.push(site(sv.def.loc.start(), canonical, if canonical { "never-written" } else { "written-only-indirectly" }, "Contract.part"));
     }
@@ -1086,10 +1169,6 @@ pub fn immutable_variables(f: &File) -> Vec<Site> {
             continue;
         }
         let name = &sv.def.name.name;
-        match ty_class(&sv.def.ty) {
-            TyClass::Mapping | TyClass::NotAType => continue,
-            _ => {}
-        }
         // plain assignments to the bare name inside constructors
         let mut any_ctor_assign = false;
         let mut good_own_ctor_assign = false;
@@ -1122,13 +1201,32 @@ pub fn memory_to_calldata(f: &File) -> Vec<Site> {
         if fd.ty == pt::FunctionTy::Constructor {
             return; // never
         }
+        // return parameters: undecided
+        for (_, p) in &fd.returns {
+            if let Some(p) = p {
+                if let (Some(_), Some(pt::StorageLocation::Memory(l))) = (&p.name, &p.storage) {
+                    out.push(Site { anchors: vec![l.start(), p.loc.start()], canonical: false, form: "memory-return-parameter", class: "Function.return" });
+                }
+            }
+        }
         let body = match &fd.body {
             Some(b) => b,
-            None => return,
+            None => {
+                // body-less declaration: undecided
+                for (_, p) in &fd.params {
+                    if let Some(p) = p {
+                        if let (Some(_), Some(pt::StorageLocation::Memory(l))) = (&p.name, &p.storage) {
+                            out.push(Site { anchors: vec![l.start(), p.loc.start()], canonical: false, form: "memory-param-of-bodyless-function", class: "Function.param" });
+                        }
+                    }
+                }
+                return;
+            }
         };
         let body_items = walk::walk_from(NodeRef::Stmt(body));
         let w = writes_in(body_items.iter());
-        let (pe, _, _) = fn_vis(fd);
+        let (pe, pi, _) = fn_vis(fd);
+        let pe = pe && !pi;
         let mut names: BTreeMap<&str, usize> = BTreeMap::new();
         for (_, p) in &fd.params {
             if let Some(p) = p {
@@ -1212,7 +1310,10 @@ pub fn single_solidity_version(su: &pt::SourceUnit) -> Option<(u64, u64, u64)> {
                     return None;
                 }
                 let v = val.string.trim();
-                let v = v.trim_start_matches(|c: char| "^~=<>".contains(c)).trim();
+                if v.starts_with('<') {
+                    return None; // an upper bound names the version the file cannot use: not among the decided spellings
+                }
+                let v = v.trim_start_matches(|c: char| "^~=>".contains(c)).trim();
                 let parts: Vec<&str> = v.split('.').collect();
                 if parts.len() != 3 {
                     return None;
